@@ -848,6 +848,23 @@ def rule_codec(prog):
             first_mut is not None and last_none is not None and last_none < first_mut, c.loc(dec["sp"]),
             "a partial frame must leave the buffer untouched so that decoding restarts from the header "
             "(last Ok(None) in statement %s, first consuming call in statement %s)" % (last_none, first_mut))
+    # ... and once the frame has been consumed, the answer is a message or an error, never `None`: for FramedRead `Ok(None)` means
+    # "no complete frame yet, read more" - it does not call decode again for the frames already in the buffer
+    def ev_c(n_):
+        if n_.get("k") == "MethodCall" and n_["m"] in ("advance", "split_to", "split_off", "clear", "truncate") and place(n_["recv"]) == src:
+            return ("consume", n_)
+        if n_.get("k") == "Path" and last(n_["res"].get("ctor_of", "")) == "None":
+            return ("none", n_)
+        return None
+    try:
+        ps_c = flow.paths(dec["body"], ev_c)
+        bad_p = [p_ for p_ in ps_c if any(e_[0] == "consume" for e_ in p_) and any(e_[0] == "none" for e_ in p_)]
+        out.add("LSCodec::decode", "a consumed frame is answered with a message or an error, never with `None`", not bad_p, c.loc(dec["sp"]),
+                "%d path(s) through decode consume the frame and also produce a `None`: FramedRead reads `Ok(None)` as `need more bytes` and "
+                "waits for input although complete frames are already buffered - whether the next request is answered depends on how the "
+                "client's bytes were chunked" % len(bad_p), ("none",))
+    except OverflowError:
+        out.add("LSCodec::decode", "a consumed frame is answered with a message or an error, never with `None`", None, c.loc(dec["sp"]), "", ("none",))
     ok = idx is not None and guard is not None and guard[0] < idx[0]
     end_name = None
     if idx is not None:
@@ -952,6 +969,26 @@ def rule_codec(prog):
                 "the subtrahend's bound and the subtraction underflows - the reader task panics (or reserves an absurd capacity) and every "
                 "later request stays unanswered" % ((a_ or "?").split("#")[0], (b_ or "?").split("#")[0]), ("sub",))
     return out
+
+
+def _pat_lits(p):
+    """literal patterns inside p"""
+    res = []
+    if not isinstance(p, dict):
+        return res
+    p = hir.pat_strip(p)
+    if p.get("k") == "Lit":
+        res.append(p)
+    for key in ("pats",):
+        for q in p.get(key) or []:
+            res += _pat_lits(q)
+    for f in p.get("fields") or []:
+        res += _pat_lits(f.get("pat"))
+    if p.get("sub"):
+        res += _pat_lits(p["sub"])
+    if p.get("pat") and isinstance(p.get("pat"), dict):
+        res += _pat_lits(p["pat"])
+    return res
 
 
 def _call_sig(e):
@@ -1574,6 +1611,162 @@ def rule_text_sync(prog):
             out.add("document::" + fn, "a line ends at a line feed and at a carriage return on its own", {"\n", "\r"} <= eol_chars,
                     c.loc(eol_site["sp"]), "the line counter advances at %s only: in a document with lone carriage returns (one of LSP's three line "
                     "endings) every position behind the first one addresses the wrong line" % sorted(eol_chars), ("utf16", "eol"))
+        # (table) the conditions under which the scan ends a line / leaves at the end of the requested line are decided over the finite
+        # set of cases that matter: current character in {LF, CR, other} x "the next character is LF".  A line is advanced exactly
+        # at LF and at a CR that is not followed by LF; the clamp exit of get_insertion_index is taken at the *first* character of a
+        # line break, i.e. at LF and at every CR.  A condition that keeps state between iterations cannot be tabulated (undecided
+        # here; clause `state` below speaks about it).
+        for bb in bodies_:
+            defs_t = {}
+            for l_ in hir.nodes(bb["body"], "Let"):
+                if l_["pat"].get("k") == "Binding" and l_.get("init") is not None:
+                    defs_t[l_["pat"]["id"]] = l_["init"]
+            # the loop variable holding the character
+            char_ids = set()
+            for x in hir.nodes(bb["body"]):
+                pats = [x["pat"]] if x.get("k") in ("LetExpr", "ForLoop") and x.get("pat") else []
+                for pt in pats:
+                    for bd in hir.pat_bindings(pt):
+                        if c.tstr(bd["bt"]) == "char":
+                            char_ids.add(bd["id"])
+            if not char_ids:
+                continue
+            mutated = {(hir.path_local(hir.strip(a_["l"])) or {}).get("id") for a_ in hir.nodes(bb["body"]) if a_.get("k") in ("Assign", "AssignOp")}
+
+            def ev3(e, env, depth=0):
+                e = hir.strip(e)
+                k = e.get("k")
+                if depth > 8:
+                    return None
+                if k == "Lit":
+                    v = e["lit"].get("v")
+                    if e["lit"].get("k") == "bool" or v in (True, False):
+                        return bool(v)
+                    return None
+                if k == "Unary" and e.get("op") in ("!", "Not"):
+                    v = ev3(e["e"], env, depth + 1)
+                    return None if v is None else (not v)
+                if k == "Binary" and e["op"] in ("&&", "||"):
+                    a_, b_ = ev3(e["l"], env, depth + 1), ev3(e["r"], env, depth + 1)
+                    if e["op"] == "&&":
+                        if a_ is False or b_ is False:
+                            return False
+                        return True if (a_ is True and b_ is True) else None
+                    if a_ is True or b_ is True:
+                        return True
+                    return False if (a_ is False and b_ is False) else None
+                if k == "Binary" and e["op"] in ("==", "!="):
+                    l_, r_ = hir.strip(e["l"]), hir.strip(e["r"])
+                    for x_, y_ in ((l_, r_), (r_, l_)):
+                        if (hir.path_local(x_) or {}).get("id") in char_ids and y_.get("k") == "Lit" and y_["lit"].get("k") == "char":
+                            eq = env["c"] == y_["lit"].get("v")
+                            return eq if e["op"] == "==" else (not eq)
+                    # `line == position.line`: we are on the requested line
+                    if any(f_.get("k") == "Field" and f_["name"] == "line" for f_ in hir.nodes(e)):
+                        return True if e["op"] == "==" else False
+                    return None
+                if k == "Match" and "matches!" in (e.get("mx") or []):
+                    # matches!(chars.peek(), Some((_, '\n')))
+                    if any(m_.get("k") == "MethodCall" and m_["m"] == "peek" for m_ in hir.nodes(e["scrut"])):
+                        lits = [l_["lit"].get("v") for a_ in e["arms"] for l_ in _pat_lits(a_["pat"])]
+                        if lits == ["\n"]:
+                            return env["next_lf"]
+                    return None
+                if k == "Path":
+                    pl_ = hir.path_local(e)
+                    if pl_ and pl_["id"] in defs_t and pl_["id"] not in mutated:
+                        return ev3(defs_t[pl_["id"]], env, depth + 1)
+                    return None
+                return None
+
+            for iff, parents_ in hir.walk(bb["body"]):
+                if iff.get("k") != "If":
+                    continue
+                then_ = iff["then"]
+                is_exit = any(r_.get("k") == "Ret" for r_ in hir.nodes(then_)) and fn == "get_insertion_index"
+                advances = any(a_.get("k") == "AssignOp" and a_["op"] == "+=" and hir.lit_value(hir.strip(a_["r"])) in ("1", 1) and
+                               "line" in (place(a_["l"]) or "") for a_ in hir.children(hir.strip(then_).get("b", {})) for a_ in hir.nodes(a_)) or \
+                    any(a_.get("k") == "AssignOp" and a_["op"] == "+=" and hir.lit_value(hir.strip(a_["r"])) in ("1", 1) and "line" in (place(a_["l"]) or "")
+                        for a_ in hir.nodes(then_))
+                mentions_char = any((hir.path_local(x) or {}).get("id") in char_ids for x in hir.nodes(iff["cond"])) or \
+                    any((hir.path_local(x) or {}).get("id") in defs_t and any((hir.path_local(y) or {}).get("id") in char_ids for y in hir.nodes(defs_t[(hir.path_local(x) or {}).get("id")]))
+                        for x in hir.nodes(iff["cond"]) if hir.path_local(x))
+                # the effective condition: enclosing branches included
+                conds = [(iff["cond"], True)]
+                chain_ = list(parents_) + [iff]
+                for i_, pr_ in enumerate(chain_[:-1]):
+                    if pr_.get("k") == "If":
+                        if any(x is chain_[i_ + 1] for x in [pr_.get("then")]):
+                            conds.append((pr_["cond"], True))
+                        elif pr_.get("else") is not None and chain_[i_ + 1] is pr_["else"]:
+                            conds.append((pr_["cond"], False))
+                mentions_char = mentions_char or any(
+                    any((hir.path_local(x) or {}).get("id") in char_ids for x in hir.nodes(cd)) for cd, _ in conds)
+                if not mentions_char or not (is_exit or advances):
+                    continue
+
+                def table():
+                    res = {}
+                    for ch in ("\n", "\r", "a"):
+                        for nl in (True, False):
+                            vals = []
+                            for cd, pos in conds:
+                                v = ev3(cd, {"c": ch, "next_lf": nl})
+                                vals.append(v if pos else (None if v is None else (not v)))
+                            if any(v is False for v in vals):
+                                res[(ch, nl)] = False
+                            elif all(v is True for v in vals):
+                                res[(ch, nl)] = True
+                            else:
+                                res[(ch, nl)] = None
+                    return res
+                tb = table()
+                if advances and not is_exit or (advances and is_exit and False):
+                    want = {("\n", True): True, ("\n", False): True, ("\r", False): True, ("\r", True): False, ("a", True): False, ("a", False): False}
+                    label = "the line counter advances exactly at a line feed and at a carriage return that is not followed by one"
+                elif is_exit:
+                    want = {("\n", True): True, ("\n", False): True, ("\r", False): True, ("\r", True): True, ("a", True): False, ("a", False): False}
+                    label = "a column behind the end of the line is clamped in front of the first character of the line break (LF, CR of CRLF, lone CR)"
+                else:
+                    continue
+                undec = any(v is None for v in tb.values())
+                ok_t = None if undec else tb == want
+                bad_cases = sorted("%s%s" % ({"\n": "LF", "\r": "CR", "a": "other"}[k_[0]], "+LF" if k_[1] else "") for k_ in want if tb.get(k_) is not None and tb[k_] != want[k_])
+                out.add("document::" + fn, label, ok_t, c.loc(iff["sp"]),
+                        "decided over {LF, CR, other} x {next is LF}: wrong for %s - for an overshooting column in a CRLF line the position "
+                        "lands between CR and LF (the next insertion tears the line break apart), or lines are counted differently from the client"
+                        % (", ".join(bad_cases) or "-"), ("utf16", "eol", "table"))
+        # (state) a flag that carries "the previous character was .." from one iteration to the next is assigned on every path through
+        # the loop body - a branch that leaves it untouched makes it say something about an older character
+        for bb in bodies_:
+            for loop in [x for x in hir.nodes(bb["body"]) if x.get("k") in ("While", "ForLoop", "Loop")]:
+                body_ = loop.get("body")
+                if body_ is None:
+                    continue
+                flags = {}
+                for a_ in hir.nodes(body_, "Assign"):
+                    pl_ = hir.path_local(hir.strip(a_["l"]))
+                    if pl_ and c.tstr(hir.strip(a_["l"])["t"]) == "bool":
+                        flags.setdefault(pl_["id"], pl_["name"])
+                # only flags declared outside the loop (carried over)
+                inner_lets = {l_["pat"]["id"] for l_ in hir.nodes(body_, "Let") if l_["pat"].get("k") == "Binding"}
+                for fid, fname in sorted(flags.items()):
+                    if fid in inner_lets:
+                        continue
+
+                    def evf(n_, fid=fid):
+                        if n_.get("k") == "Assign" and (hir.path_local(hir.strip(n_["l"])) or {}).get("id") == fid:
+                            return ("set", n_)
+                        return None
+                    try:
+                        ps_ = flow.paths(body_, evf)
+                    except OverflowError:
+                        continue
+                    stale = [p_ for p_ in ps_ if not any(e_[0] == "set" for e_ in p_) and not (p_ and p_[-1][0] in ("return", "break", "panic"))]
+                    out.add("document::" + fn, "the carried flag `%s` is assigned on every path through the loop body" % fname, not stale, c.loc(loop["sp"]),
+                            "%d of %d paths through the loop body leave `%s` as it was: after such an iteration it no longer describes the previous "
+                            "character, and a later line break is counted wrongly (a lone CR, an ordinary character, then LF: the LF is swallowed)"
+                            % (len(stale), len(ps_), fname), ("utf16", "eol", "state"))
         for bb, n in incs_all:
             utf16 = any(m["m"] in ("len_utf16", "encode_utf16") for m in hir.nodes(n["r"], "MethodCall"))
             one = hir.lit_value(n["r"]) == "1"
